@@ -11,7 +11,7 @@ CLAIMS = {
   ref="DESIGN.md section 5 C01, section 4"),
  "C02": dict(
   text="every closure created by the compile functions of assignment and compound assignment to a variable (var_set.go, var_ops.go: varSetConst, varSetExpr, var{Add,Sub,Mul,Quo,Rem,And,Or,Xor,Andnot}{Const,Expr}; about 5400 obligations) is proved to store Go's result of the operation, in the variable's kind, into the slot of the right frame / storage class / width, to evaluate the right-hand side exactly once, to return the next statement, and to leave every other slot, frame and heap cell unchanged; for all values and all environments; a compile function that returns no statement (x += 0, x *= 1 ...) or another compile function's statement (x /= -1 -> x *= -1) is checked against the same equation, per kind and storage class",
-  note="trusted: reflect.Value accessor/setter specs, double-rounding and narrow-division lemmas, xreflect.Type.Kind purity, go/ssa front end, SMT solvers. The dispatch of setVar / setPlace is under contract (each compile function is reached only under its own operator; no Go assignment operator with compatible operands ends in a compile error). Not covered (no contract): the closures for places other than variables (place_*.go) and for shift-assignments, varQuoPow2, multi-assignment ordering (assign2/assignMulti), IncDec, non-basic kinds of varSet* (closure partial), composition with the rest of the program",
+  note="trusted: reflect.Value accessor/setter specs, double-rounding and narrow-division lemmas, xreflect.Type.Kind purity, go/ssa front end, SMT solvers. The dispatch of setVar / setPlace is under contract (each compile function is reached only under its own operator; no Go assignment operator with compatible operands ends in a compile error); IncDec hands x++ / x-- over as += / -=. Not covered (no contract): the closures for places other than variables (place_*.go) and for shift-assignments, varQuoPow2, multi-assignment ordering (assign2/assignMulti), non-basic kinds of varSet* (closure partial), composition with the rest of the program",
   ref="DESIGN.md section 5 C02"),
  "C05": dict(
   text="the control-transfer closure shared by break, continue and goto (Comp.jumpOut: depth 0, 1, 2 and the generic loop) is proved to leave exactly upn frames, to continue at the statement index the label holds when the jump runs, in that frame, and to change nothing else - for all environments; Comp.Goto is proved to find a label declared in the scope of the goto or in a scope around it up to and including the function's own (stated up to two scopes out, loop verified for any depth) and never to end in 'label not found' for such a label; the closures of range-over-string are proved (frame-only contract) to write nothing but the hidden position variable, the statement index and the destination of the rune in the frame it lives in, the direct store being chosen only for an int32 slot of Env.Ints",
